@@ -6,6 +6,7 @@ import (
 	"database/sql/driver"
 	"fmt"
 	"reflect"
+	"strings"
 	"testing"
 	"time"
 
@@ -378,5 +379,31 @@ func TestUndoLogShapes(t *testing.T) {
 	a, _ := mustExec(t, db, " DELETE FROM  undo_log  WHERE branch_id IN  (?,?)  AND xid IN  (?) ", "7001", "7002", "10.0.0.7:8091:1001")
 	if a != 1 {
 		t.Fatalf("batch delete affected %d", a)
+	}
+}
+
+func TestUniqueInsertConflict(t *testing.T) {
+	_, db := open(t, "interpolateParams=true")
+	mustExec(t, db, "CREATE TABLE u (id bigint not null auto_increment primary key, a int not null, b varchar(10) not null, unique key ux (a, b))")
+	tx1, _ := db.Begin()
+	if _, err := tx1.Exec("INSERT INTO u (a, b) VALUES (1, 'x')"); err != nil {
+		t.Fatal(err)
+	}
+	done := make(chan error, 1)
+	go func() {
+		tx2, _ := db.Begin()
+		_, err := tx2.Exec("INSERT INTO u (a, b) VALUES (1, 'x')")
+		tx2.Rollback()
+		done <- err
+	}()
+	select {
+	case err := <-done:
+		t.Fatalf("second insert did not wait: %v", err)
+	case <-time.After(50 * time.Millisecond):
+	}
+	tx1.Commit()
+	err := <-done
+	if err == nil || !strings.Contains(err.Error(), "Duplicate entry") {
+		t.Fatalf("want duplicate entry after the first committed, got %v", err)
 	}
 }
